@@ -147,6 +147,7 @@ func setupRoutes(module *ast.Module, filePath string, forceInterpreter ...bool) 
 	// Compiled routes have no interpreter to consult, so hand them the type
 	// definitions they need to validate request bodies.
 	setCompiledTypeDefs(module)
+	moduleTypes := moduleTypeDefs(module)
 
 	// Try to compile routes if using compiler mode
 	if useCompiler {
@@ -188,7 +189,7 @@ func setupRoutes(module *ast.Module, filePath string, forceInterpreter ...bool) 
 		// POST /x declared later (and an earlier duplicate the later one's body).
 		for _, cr := range compiledList {
 			route := cr.route
-			regErr := registerCompiledRoute(router, route, cr.bytecode, wsServer.GetHub())
+			regErr := registerCompiledRouteWithTypes(router, route, cr.bytecode, wsServer.GetHub(), moduleTypes)
 			if regErr != nil {
 				printWarning(fmt.Sprintf("Failed to register route %s: %v", route.Path, regErr))
 			} else {
